@@ -167,6 +167,7 @@ func (p proxyHandler) tunnel(name string, rw http.ResponseWriter, req *http.Requ
 	case 1:
 		conn, brw, err := rc.Hijack()
 		if err != nil {
+			p.traceWroteResponse(res, err)
 			return err
 		}
 		defer conn.Close()
@@ -203,7 +204,9 @@ func (p proxyHandler) tunnel(name string, rw http.ResponseWriter, req *http.Requ
 			{"downstream " + name, makeH2Writer(rw, rc, req), crw},
 		}
 	default:
-		return fmt.Errorf("unsupported protocol version: %d", req.ProtoMajor)
+		err := fmt.Errorf("unsupported protocol version: %d", req.ProtoMajor)
+		p.traceWroteResponse(res, err)
+		return err
 	}
 
 	ctx := req.Context()
